@@ -136,11 +136,15 @@ def confirm(rep, flagged, battery, prop, kinds):
 def analyses(ses, rep):
     M = ignoremodel.Model(ses, "default")
     flagged = []
-    flagged += ignoremodel.analyse_should_format_node(M, ses, rep)
-    flagged += ignoremodel.analyse_toggle(M, ses, rep)
-    flagged += ignoremodel.analyse_format_block(M, ses, rep)
-    flagged += ignoremodel.analyse_skip_arms(M, ses, rep)
-    flagged += ignoremodel.analyse_field_sites(M, ses, rep)
+    for fn_ in (ignoremodel.analyse_should_format_node, ignoremodel.analyse_toggle, ignoremodel.analyse_format_block, ignoremodel.analyse_skip_arms,
+                ignoremodel.analyse_field_sites):
+        try:
+            M.inline_helpers = True
+            flagged += fn_(M, ses, rep)
+        except Inconclusive:
+            # helpers of context.rs that the engine cannot follow are left opaque (their results unconstrained), as before
+            M.inline_helpers = False
+            flagged += fn_(M, ses, rep)
     return flagged
 
 
